@@ -1118,6 +1118,27 @@ def fam_sources_dtype(v):
 
             cases.append(("multifit/%s/%s" % (kname, pname), mk(ea), mk(eb)))
 
+    # 3b. single-axis members with the SAME data: a shared uncertainty relative to the data, declared without and with the axis argument
+    for kname, members in (
+        ("indexed-same", lambda: [kafe2.IndexedFit(kafe2.IndexedContainer(counts, dtype=float), imc), kafe2.IndexedFit(kafe2.IndexedContainer(counts, dtype=float), imc)]),
+        ("indexed-int-same", lambda: [kafe2.IndexedFit(kafe2.IndexedContainer(counts, dtype=int), imc), kafe2.IndexedFit(kafe2.IndexedContainer(counts, dtype=int), imc)]),
+    ):
+        for pname, err_val, relative in (("rel-scalar", r, True), ("abs-vector", np.full(N, 0.5), False)):
+
+            def mk(with_axis, members=members, err_val=err_val, relative=relative):
+                def build():
+                    with warnings.catch_warnings():
+                        warnings.simplefilter("ignore")
+                        m = kafe2.MultiFit(members())
+                        for k in (0, 1):
+                            m.add_error(np.full(N, 1.0 + 0.5 * k), fits=k)
+                        m.add_error(err_val, fits="all", relative=relative, **(dict(axis="y") if with_axis else {}))
+                        return fit_signature(m, points=POINTS, do_fit=False)
+
+                return build
+
+            cases.append(("multifit/%s/%s/axis-omitted<->axis-y" % (kname, pname), mk(False), mk(True)))
+
     # 4. through the wrappers
     def wsig(res):
         f = res["fit"]
